@@ -198,6 +198,7 @@ func Main(e *Engine) {
 	}
 	switch mode {
 	case "search":
+		stallOut = *out
 		res := search(e, *seed, *from, *count, *stride, *budget, *variant, *tier, *records, params, *maxViol)
 		writeJSON(*out, res)
 		if res.EngineError != "" {
@@ -242,12 +243,23 @@ func labels(t *simhook.Tape) []string {
 	return out
 }
 
+var stallOut string
+
 func search(e *Engine, seed uint64, from, count, stride int, budget float64, variant, tier string, records bool, params map[string]string, maxViol int) *BatchResult {
 	st := &Stats{}
 	res := &BatchResult{Engine: e.Name, Property: e.Property, Variant: variant, GoVersion: runtime.Version(),
 		Gomaxprocs: runtime.GOMAXPROCS(0), Seed: seed, From: from, Extra: map[string]interface{}{}}
 	start := time.Now()
 	distinct := map[string]struct{}{}
+	simhook.OnStallExit = func() {
+		// see simhook.Sched.ExitOnStall: hand in what was explored and stop
+		st.Add("runs_abandoned_lock_held_across_a_yield_point", 1)
+		st.Add("worker_stopped_early_after_stall", 1)
+		res.WallS = time.Since(start).Seconds()
+		res.Stats = st.C
+		writeJSON(stallOut, res)
+		os.Exit(0)
+	}
 	for k := 0; k < count; k++ {
 		run := from + k*stride
 		if budget > 0 && time.Since(start).Seconds() > budget {
